@@ -20,7 +20,7 @@ import (
 // output: (n0 (n<tok> ...))  tokens still reachable, ascending; (n1) constructor error
 
 func init() {
-	families["finite_retain"] = family{gen: sampled(genFinite, 25, 6), exec: execFiniteRetain}
+	families["finite_retain"] = family{gen: sampled(genFinite, 45, 8), exec: execFiniteRetain}
 	families["valid_retain"] = family{gen: sampled(genValid, 150, 25), exec: execValidRetain}
 }
 
